@@ -47,7 +47,7 @@ class DataSegmentMixed(DataSegment):
         t = case['w']
         D = len(t)
         begin, end, N = c.fresh_int('begin'), c.fresh_int('end'), c.fresh_int('N')
-        c.assume(z3.And(begin >= 0, end >= 0, N >= 0))
+        c.assume(z3.And(begin >= 0, end >= 0, N >= 0, fm.size >= 58))
         big = c.fresh_bool('big_endian')
         aux = {'fm': fm, 'begin': begin, 'end': end, 'N': N, 'D': z3.IntVal(D), 'big': big}
         fm.facts(I)
